@@ -102,7 +102,9 @@ HARNESSES = [
     dict(name="xattr_writer", file="xattr_writer.c", label="bounded(blocks<=2,pairs=3)",
          fp={"destroy": "xattr_writer_destroy", "copy": "xattr_writer_copy",
              "key_compare": "block_compare"},
-         flags=LEAK, timeout=120, unwind=5,
-         cases=[dict(id="nb%d_first%d" % (n, f), defines={"NB": n, "FIRST": f}, tier=t)
+         flags=LEAK, timeout=300, unwind=4,
+         cases=[dict(id="nb%d_first%d" % (n, f), defines={"NB": n, "FIRST": f}, tier=t,
+                     unwindset=["xattr_writer_copy.0:%d" % (n + 2), "rbtree_lookup.0:%d" % (n + 1),
+                                "copy_node:%d" % (n + 1), "destroy_nodes_dfs:%d" % (n + 2)])
                 for n, f, t in ((0, 0, "quick"), (1, 0, "quick"), (2, 0, "quick"), (2, 1, "thorough"))]),
 ]
